@@ -259,6 +259,32 @@ Print Assumptions c11_handover_stream.
 Theorem c11_bolt_request_framing_stable : stable bolt_req_parse.
 Proof. exact bolt_req_stable. Qed.
 
+(* ---- hand-over and the connection's write lock ---- *)
+(* transfer() takes the write lock (notifyTransfer) BEFORE it sends the socket to the new process (transferRead) *)
+Theorem c11_transfer_takes_write_lock_first : transfer_takes_write_lock_first = true.
+Proof. exact (eq_refl true). Qed.
+
+(* For EVERY schedule of the old writer, transfer() and the new process, and wherever the old side's write had got (k) when
+   transfer() was called: the wire holds a prefix of the old write w followed by a prefix of the new side's bytes n, and no
+   byte of the new side is written before the last byte of w. *)
+Theorem c11_new_side_waits_for_old_write : forall w k n sched,
+  let st := h_run transfer_takes_write_lock_first w k n sched in
+  exists wd nd, h_wire st = wd ++ nd /\ wd ++ h_old st = w /\ nd ++ h_new st = n /\ (nd <> [] -> wd = w).
+Proof. exact new_side_waits_for_old_write. Qed.
+Print Assumptions c11_new_side_waits_for_old_write.
+
+Theorem c11_handed_over_stream_intact : forall w k n sched,
+  h_old (h_run transfer_takes_write_lock_first w k n sched) = [] ->
+  h_new (h_run transfer_takes_write_lock_first w k n sched) = [] ->
+  h_wire (h_run transfer_takes_write_lock_first w k n sched) = w ++ n.
+Proof. exact wire_complete. Qed.
+
+(* socket sent first, lock taken afterwards: a schedule puts the new side's bytes inside the old response *)
+Example c11_socket_before_lock_refuted :
+  h_wire (h_run false [1;2;3;4]%N 1 [9]%N [ATransfer; ANew; AOld; AOld; AOld; ATransfer]) = [1;9;2;3;4]%N /\
+  h_wire (h_run true [1;2;3;4]%N 1 [9]%N [ATransfer; ANew; AOld; AOld; AOld; ATransfer; ATransfer; ANew]) = [1;2;3;4;9]%N.
+Proof. vm_compute. split; reflexivity. Qed.
+
 (* non-vacuity: length-prefixed frames, handover in the middle of the first frame *)
 Example c11_handover_example :
   stable lp_parse /\
